@@ -67,6 +67,24 @@ def noncanonical(text, cols, mode):
     return "&\n".join(players)
 
 
+def rejected_call_before(cols):
+    """history: an EARLIER from_notes call with the same column count that the library rejects part-way through a row
+    (a valid note followed by one beyond the last column; an unsorted stream; a negative column); nothing it leaves
+    behind may show in the next call"""
+    from simfile.notes import NoteData, Note, NoteType
+    from simfile.timing import Beat
+    bads = [
+        [Note(beat=Beat(0), column=0, note_type=NoteType.HOLD_HEAD), Note(beat=Beat(0), column=cols, note_type=NoteType.TAP)],
+        [Note(beat=Beat(1, 3), column=cols - 1, note_type=NoteType.MINE, keysound_index=5), Note(beat=Beat(1, 3), column=cols + 3, note_type=NoteType.TAP)],
+        [Note(beat=Beat(2), column=0, note_type=NoteType.ROLL_HEAD, player=1), Note(beat=Beat(2), column=-cols - 1, note_type=NoteType.TAP, player=1)],
+    ]
+    for bad in bads:
+        try:
+            str(NoteData.from_notes(iter(bad), cols))
+        except Exception:  # noqa
+            pass
+
+
 def encode_record(rid, notes, cols):
     """run from_notes on the stream; returns the C2S record"""
     from simfile.notes import NoteData
@@ -75,6 +93,8 @@ def encode_record(rid, notes, cols):
     try:
         mode = nc.text_mode(repr(notes))
         built = [nc.build_note(d) for d in notes]
+        if mode % 4 == 1:
+            rejected_call_before(cols)
         # the stream is handed over as a generator, an iterator, a list or a tuple
         src = [lambda: (x for x in built), lambda: iter(built), lambda: built, lambda: tuple(built)][(mode // 7) % 4]()
         nd = NoteData.from_notes(src, cols)
